@@ -94,6 +94,7 @@ type monC10 struct {
 	sameDayPairs, preStart int
 	amountsChecked         int
 	measToday              bool
+	startDayFert           int
 }
 
 func dueDays(sched []int, shift int) []int {
@@ -123,11 +124,16 @@ func (m *monC10) build(sc *Scenario) {
 		fs = append(fs, z)
 		fe = append(fe, &sc.Fert[i])
 	}
-	due := dueDays(fs, 1)
+	// the residues of the initial crop are "fertilisation number one", dated on the start day: a scheduled fertilisation of the
+	// start day is the second event of that day
+	due := dueDays(append([]int{start}, fs...), 1)[1:]
 	m.fertByDue = map[int]*expEvent{}
 	for i := range fs {
 		if i > 0 && fs[i] == fs[i-1] {
 			m.sameDayPairs++
+		}
+		if fs[i] == start {
+			m.startDayFert++
 		}
 		m.expFert = append(m.expFert, expEvent{sched: fs[i], due: due[i], fert: fe[i], desc: fmt.Sprintf("fertilisation %d kg %s scheduled %s", fe[i].Amount, fe[i].Type, fe[i].D)})
 	}
@@ -377,6 +383,7 @@ func (m *monC10) Finish(rc *RunCtx) {
 			}
 		}
 	}
+	rc.Cov("fertilisations_on_start_day", int64(m.startDayFert))
 	rc.Cov("same_day_pairs", int64(m.sameDayPairs))
 	rc.Cov("pre_start_events_scheduled", int64(m.preStart))
 	rc.Cov(fmt.Sprintf("runs_date_format_%d", sc.DateFormat), 1)
@@ -389,6 +396,6 @@ func (m *monC10) Finish(rc *RunCtx) {
 func init() {
 	simProps["C10"] = simProp{checkSpec{Prop: "C10", Level: "exploration", NQuick: 400, NThorough: 12000,
 		Rule:   "cases = generated projects with 0-14 fertilisations over every row of the fertiliser table, 0-10 tillages in fallow windows, 0-12 irrigations, same-day pairs, consecutive days, events before the start and after the end, events of other fields in the same files, all four date formats; the management event log of the real run is compared per kind with a reference reader of the generated schedule (exactly once, in order, on the due day) and the state jumps on the due day with the amounts from the fertiliser table; non-trivial = >30 days and at least one scheduled action",
-		Floors: []string{"fertilization_events_checked", "tillage_events_checked", "irrigation_events_checked", "sowing_events_checked", "harvest_events_checked", "fertiliser_amounts_checked", "irrigation_days_checked", "same_day_pairs", "same_day_pair_followed_by_next_day_event", "pre_start_events_scheduled", "runs_date_format_0", "runs_date_format_1", "runs_date_format_2", "runs_date_format_3", "runs_with_second_field_in_files"}},
+		Floors: []string{"fertilization_events_checked", "tillage_events_checked", "irrigation_events_checked", "sowing_events_checked", "harvest_events_checked", "fertiliser_amounts_checked", "irrigation_days_checked", "fertilisations_on_start_day", "same_day_pairs", "same_day_pair_followed_by_next_day_event", "pre_start_events_scheduled", "runs_date_format_0", "runs_date_format_1", "runs_date_format_2", "runs_date_format_3", "runs_with_second_field_in_files"}},
 		func() []Monitor { return []Monitor{&monC10{}} }}
 }
